@@ -402,8 +402,12 @@ fn queue_main(plan: &Value, slot: Arc<Mutex<Option<QueueRun>>>) {
     let recorder = CountingRecorder::default();
     let capacity = ju(plan, "capacity", 64).max(1) as usize;
     let flush_interval = ju(plan, "flush_interval_ns", 1_000_000_000).clamp(1, 59_999_999_999);
-    let mut b = BackgroundQueueBuilder::new()
-        .capacity(capacity)
+    // plan key `default_capacity`: the capacity is left at the documented default of 64 * 1024 entries
+    let mut b = BackgroundQueueBuilder::new();
+    if !jb(plan, "default_capacity", false) {
+        b = b.capacity(capacity);
+    }
+    let mut b = b
         .thread_name("bgq")
         .metric_name("q")
         .flush_interval(Duration::from_nanos(flush_interval))
@@ -1362,10 +1366,14 @@ fn gen_c09_long_stall(rng: &mut Rng) -> Value {
 /// "for all capacities": a ring of more than 2^20 slots against a completely stalled writer. Appending exactly
 /// `capacity` (+ a few) entries loses exactly the few oldest. One such run costs ~10 s and ~600 MB: very rare.
 fn gen_c09_huge(rng: &mut Rng) -> Value {
-    let cap = (1u64 << 20) + 1 + rng.below(3000);
-    let n = cap + *rng.pick(&[0u64, 0, 1, 5]);
+    // a third of these runs: the capacity is not configured at all (documented default: 64 * 1024 entries); the
+    // writer holds one entry in flight, then exactly that many (+ a few) are appended behind it
+    let default_cap = rng.chance(0.34);
+    let cap = if default_cap { 64 * 1024 } else { (1u64 << 20) + 1 + rng.below(3000) };
+    let n = cap + *rng.pick(&[0u64, 0, 1, 5]) + default_cap as u64;
     let mut v = gen_c09_long_stall(rng);
     v["capacity"] = json!(cap);
+    v["default_capacity"] = json!(default_cap);
     v["producers"] = json!([[{"op":"append","n": n}]]);
     v["sched"] = gen_sched(rng, &SchedOpts { est_choices: 100, threads: 2, jump_max_ns: 0, stall_clock_max_ns: 0, max_steps: 400_000_000 });
     v["huge"] = json!(true);
@@ -1373,7 +1381,7 @@ fn gen_c09_huge(rng: &mut Rng) -> Value {
 }
 
 pub fn gen_c09(rng: &mut Rng, _tier: Tier) -> Value {
-    if rng.chance(1.0 / 50_000.0) {
+    if rng.chance(1.0 / 25_000.0) {
         return gen_c09_huge(rng);
     }
     if rng.chance(0.01) {
@@ -1480,6 +1488,9 @@ impl Scenario for QueueOverflow {
             if ju(plan, "capacity", 0) > (1 << 20) {
                 r.probe("capacity_over_2_20_filled", 1);
             }
+            if jb(plan, "default_capacity", false) {
+                r.probe("default_capacity_filled", 1);
+            }
             // displaced by a different producer: a lost entry whose `capacity` next newer appends include another thread
             let multi = ja(plan, "producers").len() > 1 && lost > 0;
             if multi {
@@ -1492,13 +1503,13 @@ impl Scenario for QueueOverflow {
         finish_report(r, out, run, plan, check_c09, false)
     }
     fn probes(&self) -> Vec<&'static str> {
-        vec!["entries_displaced", "displacement_at_capacity_1", "displacement_with_several_producers", "append_while_writer_parked", "capacity_over_2_20_filled"]
+        vec!["entries_displaced", "displacement_at_capacity_1", "displacement_with_several_producers", "append_while_writer_parked", "capacity_over_2_20_filled", "default_capacity_filled"]
     }
     fn components(&self) -> Value {
         queue_components()
     }
     fn rule(&self) -> &'static str {
-        "each run: capacity 1-8 (1 run in 50 000: more than 2^20, filled to the brim against a stalled writer), 1-3 producers appending up to ~6x capacity, stream gated (closed, or opened for k entries at a time; a quarter of the runs: single producer against a completely stalled writer), local metrics recorder; seeded schedule. non-trivial = >= 2 threads and >= 1 preemption; distinct = distinct (context-switch signature, producer op lists)"
+        "each run: capacity 1-8 (1 run in 25 000: more than 2^20 slots, or the unconfigured default of 64 Ki, filled to the brim against a stalled writer), 1-3 producers appending up to ~6x capacity, stream gated (closed, or opened for k entries at a time; a quarter of the runs: single producer against a completely stalled writer), local metrics recorder; seeded schedule. non-trivial = >= 2 threads and >= 1 preemption; distinct = distinct (context-switch signature, producer op lists)"
     }
 }
 
